@@ -486,6 +486,12 @@ NLW2_SOLReadResultCode SOLReader2<SOLHandler>::bsufread(FILE* f) {
     if (SR.h.tablen && fread(SR.table, (size_t)SR.h.tablen,
                              1, f) != 1)
       return NLW2_SOLRead_Bad_Suffix;
+    // The stated lengths count the terminating NUL
+    // of the name and of the table
+    if (SR.name[SR.h.namelen-1]
+        || strlen(SR.name) != (size_t)SR.h.namelen-1
+        || (SR.h.tablen && SR.table[SR.h.tablen-1]))
+      return NLW2_SOLRead_Bad_Suffix;
     SuffixInfo si(SR.h.kind, SR.name, SR.table);
     if (SR.h.kind & 4) {        // real-valued
       SuffixReader<double> sr(std::move(si), f, 1, SR.h.n);
